@@ -127,6 +127,20 @@ def run_groups(run, groups: list[str], only=None) -> list[dict] | None:
     return [cache[(g, only)] for g in groups]
 
 
+def _record_failure(run, g, f):
+    unit = f["obligation"].rsplit(".", 1)[0]
+    os.makedirs(os.path.join(VERIF, "replays"), exist_ok=True)
+    tag = re.sub(r"\W+", "_", f["obligation"] + "_" + "_".join(f["features"]))[:120]
+    path = os.path.join(VERIF, "replays", f"{run.prop}_{tag}.json")
+    w = f["witnesses"][0] if f["witnesses"] else {}
+    doc = {"property": run.prop, "unit": unit, "backend": "native-bounded", "group": g, "tier": run.tier, "seed": run.seed,
+           "failed_obligations": [f["obligation"]], "input_features": f["features"], "count": f["count"],
+           "counterexample": w, "more_witnesses": f["witnesses"][1:]}
+    with open(path, "w") as fh:
+        json.dump(doc, fh, indent=1)
+    run.violations.append({"unit": unit, "obligations": [f["obligation"]], "features": f["features"], "replay": path, "cex": w, "count": f["count"]})
+
+
 def run_for(run):
     spec = GROUPS.get(run.prop, [])
     if not spec:
@@ -145,21 +159,76 @@ def run_for(run):
         for f in r["failures"]:
             if not any(f["obligation"].startswith(p) for p in prefixes):
                 continue
-            unit = f["obligation"].rsplit(".", 1)[0]
-            os.makedirs(os.path.join(VERIF, "replays"), exist_ok=True)
-            tag = re.sub(r"\W+", "_", f["obligation"] + "_" + "_".join(f["features"]))[:120]
-            path = os.path.join(VERIF, "replays", f"{run.prop}_{tag}.json")
-            w = f["witnesses"][0] if f["witnesses"] else {}
-            doc = {"property": run.prop, "unit": unit, "backend": "native-bounded", "group": g, "tier": run.tier, "seed": run.seed,
-                   "failed_obligations": [f["obligation"]], "input_features": f["features"], "count": f["count"],
-                   "counterexample": w, "more_witnesses": f["witnesses"][1:]}
-            with open(path, "w") as fh:
-                json.dump(doc, fh, indent=1)
-            run.violations.append({"unit": unit, "obligations": [f["obligation"]], "features": f["features"], "replay": path, "cex": w, "count": f["count"]})
+            _record_failure(run, g, f)
+    if run.prop == "C08":
+        for f in run_deep(run) or []:
+            _record_failure(run, "deep", f)
     ev["rule"] = ("bounded contract evaluation of the real functions against the executable RFC 9535 mirror (native/mirror.rs); inputs enumerated by "
                   "native/gen.rs: all documents of depth <= 1 over 15 leaves plus curated and seeded random documents of depth <= 3; ASTs built directly "
                   "(never through the parser) from the selector / filter menus, 1-3 segments; a case is non-trivial when the expected or observed nodelist "
                   "is non-empty (per-unit groups: when the contract's expected result is non-empty)")
+
+
+# ---- C08: deep nesting.  One process per probe (a stack overflow aborts the process; a run-away parse is stopped by RLIMIT_CPU).
+DEEP_PROBES = ["parens", "not_parens", "fn_nesting_valid", "fn_nesting_invalid", "nested_filters", "doc_descendant", "doc_eq", "segments"]
+DEEP_CPU_S = 20
+# must-hold depths (a failure is a violation) and demonstration depths of the recorded findings (a failure there is the known finding;
+# on the unchanged tree the smallest failing depths are 4096..65536 for the recursion probes on an 8 MiB stack, and 16 for the
+# invalid function nesting under a 20 s CPU limit: both sets keep a factor >= 2 from those boundaries)
+DEEP_MUST = {"default": [16, 256, 1024], "fn_nesting_invalid": [4, 8], "segments": [16, 1024, 65536]}
+DEEP_MUST_THOROUGH = {"default": [4, 64, 512], "fn_nesting_invalid": [2, 6, 10], "segments": [262144]}
+DEEP_DEMO = {"default": [65536], "fn_nesting_invalid": [24], "segments": []}
+
+
+def deep_one(binp, pi: int, depth: int):
+    import resource
+    def lim():
+        resource.setrlimit(resource.RLIMIT_CPU, (DEEP_CPU_S, DEEP_CPU_S + 5))
+    t0 = time.time()
+    try:
+        p = subprocess.run([binp, "deep", "quick", "0", str(pi), str(depth)], capture_output=True, text=True, timeout=600, preexec_fn=lim)
+    except subprocess.TimeoutExpired:
+        return {"outcome": "undecided", "detail": "wall-clock timeout 600 s before the CPU limit"}
+    wall = round(time.time() - t0, 2)
+    if p.returncode == 0 and p.stdout.strip():
+        r = json.loads(p.stdout.strip().splitlines()[-1])
+        r["wall_s"] = wall
+        return r
+    if p.returncode in (-24, -9):      # SIGXCPU / SIGKILL from RLIMIT_CPU
+        return {"outcome": "cpu_limit", "detail": f"no result after {DEEP_CPU_S} s of CPU time (killed by RLIMIT_CPU)", "wall_s": wall}
+    if p.returncode in (-6, -11) :
+        return {"outcome": "stack_overflow" if "overflowed its stack" in p.stderr or p.returncode == -11 else "abort", "detail": p.stderr.strip()[-200:], "wall_s": wall}
+    return {"outcome": "undecided", "detail": f"exit {p.returncode}: {p.stderr[-200:]}"}
+
+
+def run_deep(run, only=None):
+    """returns the list of failure records (same shape as the runner's) of the deep-nesting probes"""
+    binp = build(run)
+    if not binp:
+        return None
+    fails, n, rows = [], 0, []
+    for pi, probe in enumerate(DEEP_PROBES):
+        must = list(DEEP_MUST.get(probe, DEEP_MUST["default"])) + (DEEP_MUST_THOROUGH.get(probe, DEEP_MUST_THOROUGH["default"]) if run.tier == "thorough" else [])
+        demo = DEEP_DEMO.get(probe, DEEP_DEMO["default"])
+        for depth in sorted(must) + demo:
+            if only and only != (pi, depth):
+                continue
+            r = deep_one(binp, pi, depth)
+            n += 1
+            rows.append({"probe": probe, "depth": depth, "outcome": r["outcome"], "seconds": r.get("seconds", r.get("wall_s"))})
+            if r["outcome"] == "ok":
+                continue
+            if r["outcome"] == "undecided":
+                run.undecided.append(f"deep probe {probe} depth {depth}: {r['detail']}")
+                continue
+            ob = {"stack_overflow": "deep.no_stack_overflow", "abort": "deep.no_stack_overflow", "cpu_limit": "deep.bounded_time", "panic": "deep.no_panic", "wrong": "deep.result"}[r["outcome"]]
+            feats = [probe, ("nesting-depth>=4096" if depth >= 4096 else "nesting-depth<=1024") if probe != "fn_nesting_invalid" else ("invalid-function-nesting>=16" if depth >= 16 else "invalid-function-nesting<=10")]
+            fails.append({"obligation": ob, "features": feats, "count": 1, "witnesses": [dict(r, probe=probe, depth=depth, qi=pi, di=depth)]})
+            break      # deeper probes of the same kind would fail the same way
+    run.bounded["evaluations"] = run.bounded.get("evaluations", 0) + n
+    run.bounded.setdefault("bounded_groups", []).append({"group": "deep", "evaluations": n, "obligations": ["deep.no_stack_overflow", "deep.bounded_time", "deep.no_panic", "deep.result"],
+        "bound": f"one process per probe, 8 MiB stack, {DEEP_CPU_S} s CPU limit; nesting depths {DEEP_MUST} must hold, {DEEP_DEMO} demonstrate the recorded findings", "rows": rows})
+    return fails
 
 
 def search_counterexample(run, unit: str, failed: list[str]):
@@ -186,6 +255,12 @@ def replay(run, doc) -> int:
     w = doc.get("counterexample") or {}
     only = (w.get("qi", 0), w.get("di", 0))
     run.tier, run.seed = doc.get("tier", "quick"), doc.get("seed", 0)
+    if doc["group"] == "deep":
+        fs = run_deep(run, only=only) or []
+        hits = [f for f in fs if f["obligation"] in doc["failed_obligations"]]
+        print(json.dumps(hits, indent=1)[:3000])
+        print("replay:", "violation reproduced on the real code" if hits else "not reproduced")
+        return 1 if hits else 0
     res = run_groups(run, [doc["group"]], only=only)
     if not res:
         return 2
